@@ -19,4 +19,16 @@ def Fresh (fs : Fs) (R : PathC) : Prop :=
 def Confined (R : PathC) (fs₀ : Fs) (scs : List Syscall) : Prop :=
   outside R (exec R fs₀ scs) = outside R fs₀
 
+/-- the same when calls may fail for reasons of the environment -/
+def ConfinedF (R : PathC) (fs₀ : Fs) (scs : List Syscall) : Prop :=
+  ∀ (flt : Faults) (i : Nat), outside R (run flt R i fs₀ scs).fs = outside R fs₀
+
+/-- a traced call succeeded, or failed in a way the C code tolerates (`mkdir` answering `EEXIST`) -/
+def Fine (x : Syscall × Option Errno) : Prop := x.2 = none ∨ ∃ e, x.2 = some e ∧ tolerated x.1 e = true
+
+/-- `fs` is `fs₀` plus new, empty directories (mode 0755, no other attribute) at names where nothing was: all that
+    establishing the unpack root (`mkdir_p`) may do to a file system -/
+def OnlyNewDirs (fs₀ fs : Fs) : Prop :=
+  ∀ p, fs p = fs₀ p ∨ (fs₀ p = none ∧ fs p = some ⟨.dir, { perm := 0o755 }⟩)
+
 end Sqfs.Unpack
